@@ -306,3 +306,14 @@ func TallyNontrivial() {
 		Cur.res.Nontrivial++
 	}
 }
+
+// Heartbeat tells the hang watchdog that the case in flight is making progress
+// (long explorations inside one case call it between executions).
+func Heartbeat() {
+	if Cur == nil {
+		return
+	}
+	if fl := Cur.cur.Load(); fl != nil {
+		Cur.cur.Store(&inflight{fl.sub, fl.key, fl.cs, time.Now()})
+	}
+}
